@@ -529,7 +529,7 @@ func (e *engine) finishCoverage() {
 	}
 	r.Set("accepted_identical_mutants_first_400", acc)
 	r.Set("tier_note", "quick: bit/byte families of every vector at the baseline point (valid time, permissive policy), small structural families at 3 (time, policy) points, policy product with reduced list shapes, node-level bit flips over the signed header+body; thorough: every family at 8 (time, policy) points, byte-value families also on collateral, full policy product with validity periods {0,1,30,90,65535}, node-level bit flips over the whole quote")
-	r.Set("rule", "For each repository test vector (SGX v3 with PCK chain, TDX v4, TDX v4 with trailing data; negative: TDX out-of-date, SGX EPPID) and its Intel-signed collateral: every single-bit flip and every byte position x 8 boundary values of the quote; boundary values at every integer/type/length field; whole-field fills and copies; all pairs of structural positions; every truncation (plain and with length fields fixed up); extensions at every nesting level; v3<->v4 re-enveloping; every DER bit of the embedded PCK chain (re-encoded) and every chain of length <=3 over all certificates of the universe; every subset of quote sections spliced in from every other vector; every bit of the TCB-info and QE-identity bodies, every JSON token x replacement set, every truncation, every bit of both signatures (ASCII and raw), signature malleation/swaps; every bit of the TCB signing chain (PEM and DER) and every chain over the certificate pool; every (TCB info, QE identity, chain) combination of the universe x times x policies; the unmodified vectors at every validity-window boundary (-1 s, 0, +1 s) x the full policy product; synthetic bundles under a harness root: every TCB status x QE status x TDX-module status x FMSPC relation x single deviations; node-level SGXAttestation.Verify. Each case = one execution of the real code. distinct_nontrivial = number of distinct mutated inputs (by SHA-256 of quote+collateral, different from the unmodified vector) that were executed and either rejected or accepted with identical verified identity and report data; evaluations = all executions (mutants x time/policy points, products).")
+	r.Set("rule", "For each repository test vector (SGX v3 with PCK chain, TDX v4, TDX v4 with trailing data; negative: TDX out-of-date, SGX EPPID) and its Intel-signed collateral: every single-bit flip and every byte position x 8 boundary values of the quote; boundary values at every integer/type/length field; whole-field fills and copies; all pairs of structural positions; every truncation (plain and with length fields fixed up); extensions at every nesting level; v3<->v4 re-enveloping; every DER bit of the embedded PCK chain (re-encoded) and every chain of length <=3 over all certificates of the universe; every subset of quote sections spliced in from every other vector; every bit of the TCB-info and QE-identity bodies, every JSON token x replacement set, every truncation, every bit of both signatures (ASCII and raw), signature malleation/swaps; every bit of the TCB signing chain (PEM and DER) and every chain over the certificate pool; every (TCB info, QE identity, chain) combination of the universe x times x policies; the unmodified vectors at every validity-window boundary (-1 s, 0, +1 s) x the full policy product; synthetic bundles under a harness root: every TCB status x QE status x TDX-module status x FMSPC relation x single deviations; a TCB level matching product (platform SGX component SVNs uniform 3..6 with one component lowered, PCESVN 5..12, TEE TCB SVNs and TDX module versions 0..3, against three levels with every acceptable/unacceptable status triple) judged by a level selection written from Intel's description; node-level SGXAttestation.Verify. Each case = one execution of the real code. distinct_nontrivial = number of distinct mutated inputs (by SHA-256 of quote+collateral, different from the unmodified vector) that were executed and either rejected or accepted with identical verified identity and report data; evaluations = all executions (mutants x time/policy points, products).")
 }
 
 // replay re-executes one artefact.
